@@ -440,9 +440,78 @@ def _explore_check_types():
     return viol, n
 
 
+def _explore_check_types_multi():
+    """check_types on signatures with SEVERAL annotated parameters (plain, Union of models, Union of non-dataframe types, Union return):
+    each argument is checked against its OWN annotation -- the body runs iff every argument satisfies (one alternative of) its
+    annotation, whatever the sibling annotations are and in whichever order the parameters are declared."""
+    import pathlib
+    import typing
+
+    import pandas as pd
+    import pandera as pa
+    from pandera.typing import DataFrame
+
+    class P(pa.DataFrameModel):
+        a: int = pa.Field(ge=0)
+
+    class Q(pa.DataFrameModel):
+        b: int = pa.Field(ge=0)
+
+    class W(pa.DataFrameModel):
+        c: int = pa.Field(ge=0)
+
+    models = {"P": P, "Q": Q, "W": W}
+    frames = {"fP": pd.DataFrame({"a": [1, 2]}), "fQ": pd.DataFrame({"b": [1, 2]}), "fW": pd.DataFrame({"c": [1, 2]}),
+              "fbad": pd.DataFrame({"a": [-1, 2]}), "fPQ": pd.DataFrame({"a": [1], "b": [2]})}
+    values = dict(frames, path=pathlib.PurePosixPath("x/y"), text="t")
+    ok = {(m, f): _direct(M.to_schema(), fr, {})[0] == "ok" for m, M in models.items() for f, fr in frames.items()}
+    ann = {"P": "DataFrame[P]", "Q": "DataFrame[Q]", "QW": "typing.Union[DataFrame[Q], DataFrame[W]]", "PW": "typing.Union[DataFrame[P], DataFrame[W]]",
+           "other": "typing.Union[str, pathlib.PurePosixPath]", "optP": "typing.Optional[DataFrame[P]]"}
+    alts = {"P": ["P"], "Q": ["Q"], "QW": ["Q", "W"], "PW": ["P", "W"], "other": None, "optP": ["P"]}
+    # (annotation of x, annotation of y, return annotation or None)
+    sigs = [("P", "Q", None), ("Q", "P", None), ("P", "QW", None), ("QW", "P", None), ("PW", "QW", None), ("P", "other", None), ("other", "P", None),
+            ("optP", "QW", None), ("P", None, "QW"), ("QW", None, "P"), ("P", "P", None)]
+    viol, n = {}, 0
+    for ax, ay, ret in sigs:
+        for is_async in (False, True):
+            xs = ["path", "text"] if alts[ax] is None else list(frames)
+            ys = [None] if ay is None else (["path", "text"] if alts[ay] is None else list(frames))
+            rs = [None] if ret is None else list(frames)
+            for vx, vy, vr in itertools.product(xs, ys, rs):
+                n += 1
+                ran = {"v": False}
+
+                def body(x, y=None, ran=ran, vr=vr):
+                    ran["v"] = True
+                    return frames[vr].copy() if vr is not None else 0
+
+                params = f"x: {ann[ax]}" + (f", y: {ann[ay]}" if ay is not None else "")
+                src = f"@pa.check_types\n{'async ' if is_async else ''}def f({params}){' -> ' + ann[ret] if ret else ''}:\n    return body(x{', y' if ay is not None else ''})"
+                ns = {"DataFrame": DataFrame, "typing": typing, "pathlib": pathlib, "body": body, "pa": pa, **models}
+                tag = f"{'async:' if is_async else ''}x={ax},y={ay},ret={ret}"
+                try:
+                    exec(src, ns)  # noqa: S102
+                except Exception as e:  # noqa
+                    viol.setdefault(("check_types.definition", f"{tag}:{type(e).__name__}"), repr(e)[:200])
+                    continue
+                x = values[vx].copy() if vx in frames else values[vx]
+                args = (x,) if ay is None else (x, values[vy].copy() if vy in frames else values[vy])
+                st, res = _invoke(ns["f"], args, {}, is_async)
+                in_ok = all(a is None or alts[a] is None or any(ok[(m, v)] for m in alts[a]) for a, v in ((ax, vx), (ay, vy)))
+                out_ok = ret is None or any(ok[(m, vr)] for m in alts[ret])
+                if ran["v"] != in_ok:
+                    viol.setdefault(("check_types.each_argument_against_its_own_annotation", f"{tag}|x={vx},y={vy}|ran={ran['v']}"), f"status={st} {res!r}"[:300])
+                    continue
+                want = "ok" if (in_ok and out_ok) else "SchemaError"
+                got = st if st in ("ok",) else ("SchemaError" if st in ("SchemaError", "SchemaErrors") else st)
+                if got != want:
+                    viol.setdefault(("check_types.multi_outcome", f"{tag}|x={vx},y={vy},r={vr}|{want}->{got}"), f"{res!r}"[:300])
+    return viol, n
+
+
 def plan(tier, seed):
     cases = [{"part": "check_input", "shape": s} for s in SHAPES]
-    cases += [{"part": "check_output"}, {"part": "check_io"}, {"part": "check_io_outputs"}, {"part": "check_types"}]
+    cases += [{"part": "check_output"}, {"part": "check_io"}, {"part": "check_io_outputs"}, {"part": "check_types"}, {"part": "check_types_multi"}]
     return {"cases": cases, "exhaustive": True,
             "bounds": {"signature_shapes": list(SHAPES), "options": OPTS, "frames": ["ok", "coercible", "bad_first", "bad_last", "two_bad"],
                        "output_shapes": list(OUT_SHAPES)},
@@ -460,6 +529,8 @@ def run_case(case):
         viol, n = _explore_check_io()
     elif p == "check_io_outputs":
         viol, n = _explore_check_io_outputs()
+    elif p == "check_types_multi":
+        viol, n = _explore_check_types_multi()
     else:
         viol, n = _explore_check_types()
     v = [{"clause": c, "key": k, "detail": d[:600]} for (c, k), d in viol.items()]
